@@ -531,7 +531,9 @@ pub fn run(args: &Args) {
     if args.shard == args.shards - 1 {
         for (n, tail) in [(65_536usize, 1usize), (131_072, 3)] {
             let mut vals: Vec<f32> = (0..n).map(|_| rng.f32_in(-2.0, 2.0)).collect();
-            vals[n / 3] = 12.0;
+            // One dominant candidate (p ~ 0.996) first: the many tiny probabilities that
+            // follow are partly lost when added to the running f32 sum.
+            vals[0] = (n as f32 * 1.8 * 250.0).ln();
             for v in vals[n - tail..].iter_mut() {
                 *v = f32::NEG_INFINITY;
             }
